@@ -699,6 +699,9 @@ func (e *Engine) runScript(s *Submission, script []string, r res.Resource, kind 
 			case "reserrnomsg":
 				// an error with a code only still has a message member
 				panic(&res.Error{Code: "test.nomsg"})
+			case "reserrbad":
+				// an error whose data cannot be encoded
+				panic(&res.Error{Code: "test.bad", Message: "x", Data: badValue(s.Op.ID)})
 			case "err":
 				panic(errors.New("plain error " + strconv.Itoa(s.Op.ID)))
 			case "wraperr":
@@ -1138,11 +1141,23 @@ func (e *Engine) deliver(conn *simconn.Conn, lose bool) {
 		return
 	}
 	if strings.HasPrefix(d.Dropped, "panic: ") {
-		e.H.Violate("C03", "panic", "delivery: "+strings.TrimPrefix(d.Dropped, "panic: "), "delivering a message to the service's subscription channel panicked ("+d.Dropped+"): the channel was closed while the connection was still open and delivering; with nats.go this panic is raised on the connection's goroutine and kills the process")
+		detail := "delivering a message to the service's subscription channel panicked (" + d.Dropped + "): the channel was closed while the connection was still open and delivering; with nats.go this panic is raised on the connection's goroutine and kills the process"
+		e.H.Violate("C03", "panic", "delivery: "+strings.TrimPrefix(d.Dropped, "panic: "), detail)
+		if d.Sub != nil && e.isQuerySub(d.Sub.Subject) {
+			e.H.Violate("C15", "panic", "delivery: "+strings.TrimPrefix(d.Dropped, "panic: "), "query event subscription: "+detail)
+		}
 	}
 	if d.ID > 0 && d.ID < len(e.Subs) && e.Subs[d.ID] != nil && d.Sub != nil {
 		s := e.Subs[d.ID]
 		if e.isQuerySub(d.Sub.Subject) {
+			if d.Dropped == "" && d.Sub.Draining {
+				// handed over while the subscription was draining: the
+				// query event has expired, it may or may not be answered
+				e.Sim.Probe("query request delivered to a draining subscription")
+				s.Dropped = "draining"
+				e.H.Rec("qdeliver", s.Group, d.ID, "draining")
+				return
+			}
 			if d.Dropped == "" {
 				s.Delivered = d.Seq
 			} else {
